@@ -80,6 +80,22 @@ def check_property(pid, tier="quick", seed=0):
         from props.common import ground_unit as _gu
         units.append(_gu("common.no_shared_mutable_state", _c13.scan))
     results = runner.run_units(units, tier)
+    # A refutation (or a unit that left the subset) is confirmed under a ten times larger budget for the path-feasibility queries
+    # before it is reported: a query that times out counts as 'feasible', and a really infeasible path can end in an obligation that
+    # does not hold there.  On the unchanged tree nothing is re-run; a verdict that does not survive the re-run was an artefact of
+    # machine load, and the re-run's result stands.
+    from pyvc import state as _state
+    shaky = {r["unit"] for r in results if r["kind"] == "func" and not r["error"]
+             and (r["unsupported"] or any(o["verdict"] != "proved" and o["kind"] != "cover" for o in r["obligations"]))}
+    if shaky and _state.FEAS_MS < 4000 and len(shaky) <= 64:
+        old_ms = _state.FEAS_MS
+        _state.FEAS_MS = 4000
+        try:
+            redo = runner.run_units([u for u in units if u.name in shaky], tier)
+        finally:
+            _state.FEAS_MS = old_ms
+        by_name = {r["unit"]: r for r in redo}
+        results = [dict(by_name[r["unit"]], confirmed_with_larger_feasibility_budget=True) if r["unit"] in by_name else r for r in results]
     obs = fold_covers([o for r in results for o in r["obligations"]])
     errors = [r for r in results if r["error"]]
     unsupported = [r for r in results if r["unsupported"]]
